@@ -337,7 +337,7 @@ var clauseKeywords = map[string]bool{
 	"requires": true, "ensures": true, "establishes": true, "modifies": true, "loop": true, "at": true,
 	"property": true, "nopanic": true, "reveal": true, "pure": true, "func": true,
 	"ghost": true, "lemma": true, "axiom": true, "extern": true, "fresh": true,
-	"maypanic": true, "regex": true, "globalfact": true, "constmap": true, "noblock": true, "objinvariant": true, "entryfact": true, "encapsulated": true, "ownedwrites": true, "inline": true, "boundary": true, "immutable": true, "bounded": true, "opaque": true, "pathflag": true,
+	"maypanic": true, "regex": true, "globalfact": true, "constmap": true, "noblock": true, "objinvariant": true, "entryfact": true, "encapsulated": true, "ownedwrites": true, "inline": true, "boundary": true, "immutable": true, "bounded": true, "opaque": true, "pathflag": true, "pathvar": true,
 }
 
 func (p *parser) parseExpr(minPrec int) (Expr, error) {
@@ -968,6 +968,14 @@ func (p *parser) parseClauses(fc *FuncContract) error {
 		case "pathflag": // pathflag <name>: a ghost Boolean of this activation, false at entry, set by `at call .. mark`
 			p.next()
 			fc.Clauses = append(fc.Clauses, &Clause{Kind: "pathflag", Label: p.next().s})
+		case "pathvar": // pathvar <name> <type>: a ghost variable of this activation, zero at entry, set by `at call .. setflag`
+			p.next()
+			nm := p.next().s
+			ts, err := p.parseTypeString()
+			if err != nil {
+				return err
+			}
+			fc.Clauses = append(fc.Clauses, &Clause{Kind: "pathvar", Label: nm, Text: ts})
 		case "maypanic":
 			p.next()
 			fc.MayPanic = true
